@@ -330,6 +330,7 @@ def replay(prop_id, path):
 
 def run(prop_id, tier, seed, nshards=None):
     t0 = time.time()
+    os.environ["VERIF_TIER_EFFECTIVE"] = tier
     mod = load_prop(prop_id)
     if nshards is None:
         nshards = getattr(mod, "SHARDS", {}).get(tier, 4 if tier == "quick" else 16)
